@@ -35,6 +35,8 @@ fn assert_any_equals_typed<A, St: BumpAllocatorSettings>(typed: Stats<'_, A, St>
 /// {scope exit, reset_to_start, reset, deallocate} then the identities; 3: a claim: handle reports zeros, guard is coherent;
 /// 4: the follow-up operations of 2 (a chunk switch before them leaves a *non-current* chunk with a stale position), then
 /// type-erased == typed
+static mut SMALL_REQ: bool = false;
+
 fn stats_body<A, St: BumpAllocatorSettings, const PART: u8>(header_size: usize, budget: usize)
 where
     A: BaseAllocator<St::GuaranteedAllocated> + Default,
@@ -44,7 +46,16 @@ where
     let mut bump = core::mem::ManuallyDrop::new(bump);
     set_budget(0);
     // with budget the request is concrete and cannot fit in the first chunk (chunk switch certain)
-    let l = if budget == 1 { core::alloc::Layout::from_size_align(24, 4).unwrap() } else { any_layout(24, 4) };
+    // SMALL_REQ (stateful / over-aligned allocators whose first chunk has no capacity): a 1-byte request already forces
+    // chunk 2, whose size is then decided by the growth rule alone (third-round seeded change: doubling the capacity
+    // instead of the size makes chunk 2 as small as the request allows)
+    let l = if unsafe { SMALL_REQ } {
+        core::alloc::Layout::from_size_align(1, 1).unwrap()
+    } else if budget == 1 {
+        core::alloc::Layout::from_size_align(24, 4).unwrap()
+    } else {
+        any_layout(24, 4)
+    };
     set_budget(budget);
     let r = bump.allocate(l);
     set_budget(0);
@@ -120,6 +131,19 @@ stats_harness!(stats_coherent_va_up8_b0, VA, S<8, true>, 32, 0, 0);
 stats_harness!(stats_coherent_va_down16_b0, VA, S<16, false>, 32, 0, 0);
 stats_harness!(stats_coherent_extra8_up1_b1, VA<8>, S<1, true>, 32, 1, 0);
 stats_harness!(stats_coherent_stateful_up1_b1, VAStateful, S<1, true>, 48, 1, 0);
+macro_rules! stats_small_harness {
+    ($name:ident, $A:ty, $S:ty, $hdr:expr) => {
+        #[kani::proof]
+        #[kani::unwind(6)]
+        #[kani::stub(std::alloc::handle_alloc_error, crate::stubs::hae_stub)]
+        fn $name() {
+            unsafe { SMALL_REQ = true };
+            stats_body::<$A, $S, 0>($hdr, 1);
+        }
+    };
+}
+stats_small_harness!(stats_coherent_stateful_small_up1_b1, VAStateful, S<1, true>, 48);
+stats_small_harness!(stats_coherent_stateful_small_down1_b1, VAStateful, S<1, false>, 48);
 stats_harness!(stats_coherent_stateful_down1_b1, VAStateful, S<1, false>, 48, 1, 0);
 stats_harness!(stats_coherent_over_up1_b0, VAOver, S<1, true>, 64, 0, 0);
 stats_harness!(stats_coherent_over_down1_b0, VAOver, S<1, false>, 64, 0, 0);
